@@ -44,6 +44,29 @@ CLAIMED = {
             "BMP code point in both positions, with legality judged by expat-derived tables.",
             "Trusted: expat as the reference XML parser (XML 1.0 4th edition names), TLC. lxml is not installed, so the "
             "etree_lxml builder itself is out of reach; the filter is exercised directly.", "5/C20"),
+    "C02": ("model_checking",
+            "TLA+ spec Tokenizer (the WHATWG state machine, ~80 states, html5lib deviations as named branches); TLC "
+            "bounded-exhaustive over fragment strings x start state x last start tag x CDATA flag with spec->code replay; "
+            "TLC-computed state cover (VIEW on control state) expanded into a W-method transition-cover suite; code->spec "
+            "trace validation (Trace_Tokenizer) of real token streams incl. short-read delivery",
+            "Every input TLC enumerates is tokenized by the specification and by the real HTMLTokenizer and compared in the "
+            "property's normal form; every control-state transition of the specification is exercised from a TLC-found "
+            "shortest prefix and its target identified by distinguishing suffixes; arbitrary Unicode inputs (repo test strings, "
+            "prefix closure, soup with CR/LF, NUL, surrogates, astral) are re-derived by TLC from the recorded input.",
+            "Oracle = my transcription of the June-2020 tokenizer (no network): a disagreement is adjudicated by reading the "
+            "code, never silently accepted. Bounds: <=3/4 fragments over 4 alphabets (quick/thorough). CDATA-allowed is driven "
+            "by a stub parser object. Trusted: TLC, harness/realtok.py normal form.", "5/C02"),
+    "C14": ("model_checking",
+            "Tokenizer.tla character-reference states + Gen_Entities (html.entities.html5) + NumericRef; exhaustive finite "
+            "domains validated by TLC: all 2231 names x follower classes x 5 contexts (Trace_Tokenizer), numeric value tables "
+            "(Trace_NumericTable, constant-level), serializer entity-replacement round trip re-tokenized by the spec",
+            "Named references: every name with every follower class (incl. continuations towards longer names) in text, RCDATA "
+            "and the three attribute-value syntaxes is decoded by the real tokenizer and re-derived by the specification "
+            "(longest match, attribute exception). Numeric: the real result for each value is tabulated and TLC checks the table "
+            "against NumericRef (thorough: all 0..0x110000 x 5 spellings x semicolon; quick: BMP + plane edges + sample). Reverse: "
+            "text and attribute values rendered with an output encoding must tokenize back to the original.",
+            "Trusted: html.entities.html5 as the standard's entity table (2231 names), TLC. 32-bit TLC integers: overflow inputs "
+            "saturate at 0x110000 in the spec.", "5/C14"),
 }
 
 NOT_YET = "check not built yet in this round (planned, see DESIGN.md section 5)"
